@@ -678,8 +678,9 @@ def run_c14(tier, seed):
         # one configuration per operation form; lookups under settings that turn reads into writes
         seen, pick = set(), []
         for kind, o, init, stats, policy in combos:
-            key = (kind, o['op'], o.get('form', 0), str(sorted(o['a'].items())))
             want_rw = o['op'] in ('get', 'contains', 'len', 'iter')
+            # (every lookup form runs under the settings that make it write; a sample of them also without)
+            key = (kind, o['op'], o.get('form', 0), str(sorted(o['a'].items())), stats if want_rw else None)
             if key in seen or (want_rw and not stats and rng.random() < 0.8):
                 continue
             seen.add(key)
